@@ -698,4 +698,261 @@ Proof.
 Qed.
 End RebaseCmd.
 
+(* ------------------------------------------------------------------ export links live outside the layers directory *)
+Variables Ec bpr gpr : list bytes.
+Hypothesis HEc : plains Ec /\ c_exports c = pa Ec /\ (forall r1 r2, Lc ++ r1 <> Ec ++ r2).
+Hypothesis Hbpr : plains bpr /\ bpr <> [] /\ c_exp_binpkg c = pjoin bpr.
+Hypothesis Hgpr : plains gpr /\ gpr <> [] /\ c_exp_gen c = pjoin gpr.
+
+Lemma pjoin_nonempty rs : plains rs -> rs <> [] -> pjoin rs <> [].
+Proof.
+  intros Hr Hne. destruct rs as [|r rs']; [congruence|]. inversion Hr as [|? ? (H1 & _) _]; subst.
+  destruct rs'; cbn; [exact H1|]. destruct r; [congruence|discriminate].
+Qed.
+Lemma pathjoin3 cs rs x : plains cs -> plains rs -> rs <> [] -> plain x ->
+  pathjoin [pa cs; pjoin rs; x] = pa (cs ++ rs ++ [x]).
+Proof.
+  intros Hc Hr Hne Px.
+  assert (E : pathjoin [pa cs; pjoin rs; x] = pathjoin [pa cs; pjoin (rs ++ [x])]).
+  { unfold pathjoin. cbn [filter].
+    assert (beq (pa cs) [] = false) as -> by (apply beq_false, pa_nonempty).
+    assert (beq (pjoin rs) [] = false) as -> by (apply beq_false; now apply pjoin_nonempty).
+    assert (beq x [] = false) as -> by (apply beq_false; apply Px).
+    assert (beq (pjoin (rs ++ [x])) [] = false) as ->.
+    { apply beq_false, pjoin_nonempty; [|destruct rs; discriminate]. apply plains_app. split; [exact Hr|constructor; [exact Px|constructor]]. }
+    cbn [negb]. f_equal. rewrite pjoin_app by (try exact Hne; discriminate).
+    change (pjoin [pa cs; pjoin rs; x]) with (pa cs ++ sl :: pjoin rs ++ sl :: x).
+    change (pjoin [pa cs; pjoin rs ++ sl :: pjoin [x]]) with (pa cs ++ sl :: pjoin rs ++ sl :: pjoin [x]). reflexivity. }
+  rewrite E. apply pathjoin_pa; [exact Hc| |destruct rs; discriminate].
+  apply plains_app. split; [exact Hr|constructor; [exact Px|constructor]].
+Qed.
+
+Lemma export_links_eq l a : l_name l = a -> plain a ->
+  map fst (automated_exports c l) = [pa (Ec ++ bpr ++ [a]); pa (Ec ++ gpr ++ [a])].
+Proof.
+  intros <- Pa. unfold automated_exports. cbn [map fst].
+  destruct HEc as (E1 & E2 & _). destruct Hbpr as (B1 & B2 & B3). destruct Hgpr as (G1 & G2 & G3).
+  rewrite E2, B3, G3. now rewrite !pathjoin3.
+Qed.
+
+Definition out_of (X : bytes) (q : bytes) : bool := negb (at_or_under X q).
+Lemma IB_remove_outside S f0 f r : IB S f0 f -> plains r -> IB S f0 (pfilter (out_of (pa (Ec ++ r))) f).
+Proof.
+  intros HI Pr. destruct HEc as (E1 & _ & E3). apply IB_pfilter; [exact HI|].
+  intros [q m] Hin HLp. cbn [fst]. unfold out_of. apply negb_true_iff.
+  destruct (at_or_under (pa (Ec ++ r)) q) eqn:Ea; [|reflexivity]. exfalso.
+  unfold Lpred in HLp. cbn [fst] in HLp. apply andb_true_iff in HLp as [Hu _].
+  pose proof (ib_clean _ _ _ HI _ _ Hin) as Hq. apply clean_abs_repr in Hq as (qs & Pq & ->).
+  apply under_pa in Hu as (r1 & _ & ->); [|exact HLc|exact Pq].
+  apply at_or_under_pa in Ea as (r2 & Er); [|apply plains_app; now split|exact Pq].
+  rewrite <- app_assoc in Er. now apply E3 in Er.
+Qed.
+Lemma cfgp_outside r x : plains r -> plain x -> out_of (pa (Ec ++ r)) (cfgp x) = true.
+Proof.
+  intros Pr Px. destruct HEc as (E1 & _ & E3). unfold out_of. apply negb_true_iff.
+  destruct (at_or_under (pa (Ec ++ r)) (cfgp x)) eqn:Ea; [|reflexivity]. exfalso. unfold cfgp in Ea.
+  apply at_or_under_pa in Ea as (r2 & Er); [|apply plains_app; now split|].
+  - rewrite <- app_assoc in Er. now apply E3 in Er.
+  - apply plains_dirty; [exact Px|constructor; [apply plain_lcf|constructor]].
+Qed.
+
+Lemma filter_andb {A} (P Q : A -> bool) l : filter (fun x => P x && Q x) l = filter Q (filter P l).
+Proof.
+  induction l as [|x r IH]; cbn [filter]; [reflexivity|]. destruct (P x); cbn [andb filter]; [|exact IH].
+  destruct (Q x); now rewrite IH.
+Qed.
+Lemma Lpart_mono S f f' : Lpart Lc [] f = Lpart Lc [] f' -> Lpart Lc S f = Lpart Lc S f'.
+Proof.
+  intros E. assert (G0 : forall g, Lpart Lc S g = filter (fun e => negb (inS Lc S (fst e))) (Lpart Lc [] g)).
+  { intros g. unfold Lpart. rewrite <- filter_andb. apply filter_ext. intros e. unfold Lpred. cbn [inS existsb negb].
+    now rewrite andb_true_r. }
+  now rewrite !G0, E.
+Qed.
+Lemma IB_mono S f0 f : IB [] f0 f -> IB S f0 f.
+Proof. intros [H1 H2 H3]. constructor; auto. now apply Lpart_mono. Qed.
+
+(* ------------------------------------------------------------------ remove *)
+Definition rsfx : bytes := D_RemovedLayerSuffix.
+Lemma plain_removed a : plain a -> plain (a ++ rsfx).
+Proof.
+  intros (H1 & H2 & H3 & H4). repeat split.
+  - destruct a; [congruence|discriminate].
+  - intros E. apply (f_equal (@length _)) in E. rewrite app_length in E. cbn in E. lia.
+  - intros E. apply (f_equal (@length _)) in E. rewrite app_length in E. cbn in E. lia.
+  - intros Hin. apply in_app_or in Hin as [Hin|Hin]; [now apply H4|].
+    vm_compute in Hin. repeat (destruct Hin as [Hin|Hin]; [discriminate|]). destruct Hin.
+Qed.
+Lemma legal_rest_app x y : legal_rest (x ++ y) = legal_rest x && legal_rest y.
+Proof. induction x as [|ch r IH]; cbn [app legal_rest]; [reflexivity|]. now rewrite IH, andb_assoc. Qed.
+Lemma illegal_removed a : legal_name (a ++ rsfx) = false.
+Proof.
+  destruct a as [|ch r]; [reflexivity|]. cbn [app legal_name]. rewrite legal_rest_app.
+  change (legal_rest rsfx) with false. now rewrite !andb_false_r.
+Qed.
+Lemma removed_ne a : a <> a ++ rsfx.
+Proof. intros E. apply (f_equal (@length _)) in E. rewrite app_length in E. cbn in E. lia. Qed.
+Lemma lp_removed a : lp Lc a ++ rsfx = lp Lc (a ++ rsfx).
+Proof. unfold lp. apply pa_last_app. Qed.
+
+Section RemoveCmd.
+Variables (f0 : fsT) (a : bytes).
+Hypothesis Hc0 : fs_clean f0.
+Hypothesis Hn0 : nolink f0.
+
+Definition Srem : list bytes := [a; a ++ rsfx].
+Definition RemFacts : Prop := plain a /\ (forall x y, G f0 x = Some y -> y <> a).
+Definition RemSt (f : fsT) : Prop := IB [] f0 f \/ (IB Srem f0 f /\ cfgbase f a = None).
+Definition IvRem (w : world) : Prop := w_fs w = f0 \/ (RemFacts /\ RemSt (w_fs w)).
+
+Lemma rem_st_of w : IvRem w -> RemSt (w_fs w).
+Proof. intros [E|[_ H]]; [|exact H]. left. rewrite E. now apply IB_refl. Qed.
+
+Lemma rem_outside_step e r : RemFacts -> plains r ->
+  hs IvRem false (fs_remove e (pa (Ec ++ r))) (fun _ => True).
+Proof.
+  intros HF Pr. unfold fs_remove. apply hs_true, hoare_do_op. intros w w' HI _ E. right. split; [exact HF|].
+  apply rem_st_of in HI. cbn [op_result] in E. unfold on_fres in E.
+  destruct (remove_all (w_fs w) _) as [f'|] eqn:Er; [|discriminate]. injection E as <-. cbn [set_fs w_fs].
+  apply remove_all_shape in Er. subst f'.
+  change (filter _ (w_fs w)) with (pfilter (out_of (pa (Ec ++ r))) (w_fs w)).
+  destruct HI as [HI|[HI Hcb]]; [left|right; split]; try (now apply IB_remove_outside).
+  rewrite <- Hcb. apply cfgbase_ext. rewrite fs_get_pfilter, cfgp_outside; [reflexivity|exact Pr|apply HF].
+Qed.
+
+Lemma rem_links_step e l : RemFacts -> l_name l = a -> hs IvRem false (remove_export_links e c l) (fun _ => True).
+Proof.
+  intros HF El. pose proof HF as (Pa & _). unfold remove_export_links. apply hs_mapM_. intros lt Hlt.
+  assert (Hp : exists r, plains r /\ fst lt = pa (Ec ++ r)).
+  { apply (in_map fst) in Hlt. rewrite (export_links_eq l a El Pa) in Hlt.
+    destruct Hbpr as (B1 & _). destruct Hgpr as (G1 & _).
+    destruct Hlt as [<-|[<-|[]]]; eexists; (split; [|reflexivity]); apply plains_app; (split; [assumption|]);
+      constructor; (exact Pa || constructor). }
+  destruct Hp as (r & Pr & ->). apply hs_get_fs_k. intros f.
+  destruct (negb (exists_ f _)); [now apply hs_ret|]. destruct (negb (is_symlink f _)); [apply hs_fail|].
+  now apply rem_outside_step.
+Qed.
+
+Lemma In_a_S : In a Srem. Proof. now left. Qed.
+Lemma In_ar_S : In (a ++ rsfx) Srem. Proof. right; now left. Qed.
+
+Lemma rem_dir_step e : RemFacts -> hs IvRem false (fs_remove e (lp Lc a)) (fun _ => True).
+Proof.
+  intros HF. pose proof HF as (Pa & _). unfold fs_remove. apply hs_true, hoare_do_op. intros w w' HI _ E.
+  right. split; [exact HF|]. apply rem_st_of in HI. cbn [op_result] in E. unfold on_fres in E.
+  destruct (remove_all (w_fs w) _) as [f'|] eqn:Er; [|discriminate]. injection E as <-. cbn [set_fs w_fs].
+  apply remove_all_shape in Er. subst f'.
+  change (filter _ (w_fs w)) with (pfilter (out_of (lp Lc a)) (w_fs w)).
+  assert (HI' : IB Srem f0 (w_fs w)) by (destruct HI as [HI|[HI _]]; [now apply IB_mono|exact HI]).
+  right. split.
+  - apply IB_pfilter; [exact HI'|]. intros [q m] Hin HLp. cbn [fst]. unfold out_of.
+    unfold Lpred in HLp. cbn [fst] in HLp. apply andb_true_iff in HLp as [_ HLp]. apply negb_true_iff in HLp.
+    unfold inS in HLp. cbn [Srem existsb] in HLp. apply orb_false_iff in HLp as [HLp _]. now rewrite HLp.
+  - unfold cfgbase. rewrite fs_get_pfilter.
+    assert (out_of (lp Lc a) (cfgp a) = false) as ->; [|reflexivity].
+    unfold out_of. apply negb_false_iff. unfold lp, cfgp. apply at_or_under_pa.
+    + now apply plains_lp.
+    + apply plains_dirty; [exact Pa|constructor; [apply plain_lcf|constructor]].
+    + exists [lcf]. now rewrite <- app_assoc.
+Qed.
+
+Lemma rem_rename_step e : RemFacts -> hs IvRem false (fs_rename e (lp Lc a) (lp Lc a ++ rsfx)) (fun _ => True).
+Proof.
+  intros HF. pose proof HF as (Pa & _). pose proof (plain_removed a Pa) as Par.
+  unfold fs_rename. apply hs_true, hoare_do_op. intros w w' HI _ E.
+  right. split; [exact HF|]. apply rem_st_of in HI. cbn [op_result] in E. unfold on_fres in E.
+  rewrite lp_removed in E.
+  destruct (rename (w_fs w) _ _) as [f'|] eqn:Er; [|discriminate]. injection E as <-. cbn [set_fs w_fs].
+  assert (HI' : IB Srem f0 (w_fs w)) by (destruct HI as [HI|[HI _]]; [now apply IB_mono|exact HI]).
+  apply rename_shape in Er as [[E _]|(na & Ea & Eu & -> & _)].
+  { exfalso. unfold lp in E. apply pa_inj in E; [|now apply plains_lp|now apply plains_lp].
+    apply app_inv_head in E. injection E as E. now apply removed_ne in E. }
+  set (F := filter (not_at (lp Lc (a ++ rsfx))) (w_fs w)).
+  assert (PA : plains (Lc ++ [a])) by now apply plains_lp.
+  assert (PR : plains (Lc ++ [a ++ rsfx])) by now apply plains_lp.
+  assert (NE : Lc ++ [a ++ rsfx] <> []) by (destruct Lc; discriminate).
+  assert (HF' : fs_clean F).
+  { intros p m Hin. apply filter_In in Hin as [Hin _]. eapply (ib_clean _ _ _ HI'); eauto. }
+  assert (Hdis : forall r, plains r -> at_or_under (pa (Lc ++ [a])) (pa ((Lc ++ [a ++ rsfx]) ++ r)) = false).
+  { intros r Pr. destruct (at_or_under (pa (Lc ++ [a])) (pa ((Lc ++ [a ++ rsfx]) ++ r))) eqn:Ea2; [|reflexivity]. exfalso.
+    apply at_or_under_pa in Ea2 as (r2 & Er2); [|exact PA|apply plains_app; now split].
+    rewrite <- !app_assoc in Er2. apply app_inv_head in Er2. cbn in Er2. injection Er2 as Er2 _.
+    symmetry in Er2. now apply removed_ne in Er2. }
+  right. split; [constructor|].
+  - apply (move_clean (Lc ++ [a]) (Lc ++ [a ++ rsfx]) PA PR NE F HF').
+  - intros y t Py Ey. apply fs_get_move_cases in Ey as [[_ Ey]|(p & Hp1 & Hp2 & Hp3)].
+    + unfold F in Ey. destruct (beq (cfgp y) (lp Lc (a ++ rsfx))) eqn:E.
+      * apply beq_true in E. rewrite E, fs_get_filter_none in Ey; [discriminate|].
+        intros m. unfold not_at. cbn [fst]. now rewrite beq_refl.
+      * rewrite fs_get_filter in Ey; [now apply (ib_nolink _ _ _ HI' y t)|].
+        intros m. unfold not_at. cbn [fst]. now rewrite E.
+    + pose proof (fs_get_In _ _ _ Hp3) as Hin. pose proof (HF' _ _ Hin) as Hc.
+      apply clean_abs_repr in Hc as (ps & Pp & ->). unfold lp in Hp1.
+      apply at_or_under_pa in Hp1 as (r & ->); [|exact PA|exact Pp].
+      assert (Pr : plains r) by (apply plains_app in Pp; tauto).
+      unfold lp, cfgp in Hp2. rewrite move_target in Hp2 by assumption.
+      apply pa_inj in Hp2; [|apply plains_app; now split|apply plains_dirty; [exact Py|constructor; [apply plain_lcf|constructor]]].
+      rewrite <- app_assoc in Hp2. apply app_inv_head in Hp2. cbn in Hp2. injection Hp2 as <- ->.
+      unfold F in Hp3. rewrite fs_get_filter in Hp3.
+      * rewrite <- app_assoc in Hp3. apply (ib_nolink _ _ _ HI' a t Pa Hp3).
+      * intros m. unfold not_at. cbn [fst]. apply negb_true_iff, beq_false. unfold lp. intros E. apply pa_inj in E.
+        -- rewrite <- app_assoc in E. apply app_inv_head in E. discriminate.
+        -- exact Pp.
+        -- exact PR.
+  - unfold F, lp. change (Lc ++ [a]) with (Lc ++ a :: []). change (Lc ++ [a ++ rsfx]) with (Lc ++ (a ++ rsfx) :: []).
+    rewrite (Lpart_rename Srem (w_fs w) a [] (a ++ rsfx) []); auto using In_a_S, In_ar_S.
+    + apply (ib_part _ _ _ HI').
+    + apply (ib_clean _ _ _ HI').
+    + constructor.
+    + constructor.
+  - unfold cfgbase, lp.
+    rewrite (rename_get_source (Lc ++ [a]) (Lc ++ [a ++ rsfx]) PA NE F (cfgp a) HF'); [reflexivity| |exact Hdis].
+    unfold cfgp. apply at_or_under_pa; [exact PA|apply plains_dirty; [exact Pa|constructor; [apply plain_lcf|constructor]]|].
+    exists [lcf]. now rewrite <- app_assoc.
+Qed.
+
+Lemma rem_final w : IvRem w -> gforest (G f0) -> gforest (G (w_fs w)).
+Proof.
+  intros [->|((Pa & Hnc) & [HI|[HI Hcb]])] HG; [exact HG| |].
+  - apply (gforest_ext (G f0)); [|exact HG]. intros x. symmetry. apply (G_out []); auto.
+    + apply (ib_clean _ _ _ HI).
+    + apply (ib_nolink _ _ _ HI).
+    + apply (ib_part _ _ _ HI).
+    + intros y [].
+  - pose proof (plain_removed a Pa) as Par.
+    apply (gforest_ext (g_del (G f0) a)); [|now apply gforest_del].
+    intros x. unfold g_del. destruct (beq a x) eqn:Ex.
+    + apply beq_true in Ex. subst x.
+      destruct (G_cases (w_fs w) a (ib_clean _ _ _ HI) (ib_nolink _ _ _ HI)) as [E|(_ & _ & _ & E)]; congruence.
+    + apply beq_false in Ex. destruct (beq (a ++ rsfx) x) eqn:Ex2.
+      * apply beq_true in Ex2. subst x. rewrite !G_eq, illegal_removed. now rewrite !andb_false_r.
+      * apply beq_false in Ex2. symmetry. apply (G_out Srem); auto.
+        -- apply (ib_clean _ _ _ HI).
+        -- apply (ib_nolink _ _ _ HI).
+        -- apply (ib_part _ _ _ HI).
+        -- intros y [<-|[<-|[]]]; assumption.
+        -- intros [E|[E|[]]]; congruence.
+Qed.
+
+Lemma remove_layer_keeps e ld files :
+  LDI (skel (read_layer_files c f0)) ld -> paths_ok c (ld_map ld) ->
+  hs IvRem false (remove_layer e c ld a files) (fun _ => True).
+Proof.
+  intros [Hs HW] HPa. unfold remove_layer.
+  apply hs_guard_k. intros G1. apply test_name_need in G1 as (Ha & La & l & El). rewrite El.
+  apply hs_guard_k. intros _. apply hs_guard_k. intros Gc. apply negb_true_iff in Gc.
+  apply hs_guard_k. intros _.
+  assert (Hg : forall x, g_of (ld_map ld) x = G f0 x) by (intros x; now apply skel_g).
+  pose proof (lm_get_name _ _ _ El) as Ena. pose proof (lm_get_in _ _ _ El) as Hin.
+  assert (Pa : plain a) by now apply legal_plain.
+  assert (HF : RemFacts).
+  { split; [exact Pa|]. intros x y Hxy. rewrite <- Hg in Hxy. apply g_of_some in Hxy as (l' & El' & <-).
+    apply (has_child_false _ _ Gc). eapply lm_get_in; eauto. }
+  apply hs_seq; [now apply rem_links_step|].
+  apply hs_get_fs_k. intros f. apply hs_seq; [|apply renormalize_keeps].
+  rewrite (HPa l Hin), Ena, (layer_path_eq a Pa).
+  destruct (files || pristine_tree c f l); [now apply rem_dir_step|]. cbv zeta.
+  destruct (exists_ f _); [apply hs_fail|now apply rem_rename_step].
+Qed.
+End RemoveCmd.
+
 End WithCfg.
